@@ -11,44 +11,40 @@
           rep: (rep <line or -> <hexexcerpt> <column>) parsed from stderr by the harness
    (query <fname-hex> <contents-hex> <perr> <stderr-hex> <rep> <wtab>)   perr: (pe <Offset> <len Token>) | none
    (yaml <transport> <fname-hex> <contents-read-hex> <index> <stderr-hex> <rep> <wtab>)
-   wtab: (w (<rune> <width>) ...) go-runewidth RuneWidth of every rune of the input outside 0x20..0x7e.
+   wtab: (sw w0 ... wn), wi = go-runewidth StringWidth of the first i bytes of the excerpt the implementation printed.
    A line wrapped as (spec <line>) is judged against Spec (Oracle.v) instead of against the model; then
    the verdict of a violation is (bad <family> ...) where <family> names the model-side explanation
    (pipe-reset, cr-window) or "other". *)
 From Coq Require Import List ZArith NArith Bool String.
-From Verif Require Import common.Sexp c17.ErrPos c17.Spec c17.Oracle c17.Window.
+From Verif Require Import common.Sexp c17.FastSexp c17.ErrPos c17.Spec c17.Oracle c17.Window.
 Import ListNotations.
 Open Scope Z_scope.
 
-(* ---- width oracle from the per-case table -------------------------------------------------------- *)
-Definition lookup_w (tbl : list (N * Z)) (r : N) : Z :=
-  match find (fun p => (fst p =? r)%N) tbl with
-  | Some p => snd p
-  | None => if ((32 <=? r) && (r <? 127))%N then 1 else -1000000
+(* ---- width oracle from the per-case table ----------------------------------------------------------
+   (sw w0 w1 ... wn): wi = runewidth.StringWidth(x[:i]) for the excerpt x the implementation printed.
+   The model and the oracle only ever need the width of a prefix of the excerpt; for any other string
+   (then the excerpts differ anyway) the oracle answers a poison value. *)
+Fixpoint prefixb (p s : list N) : bool :=
+  match p, s with
+  | [], _ => true
+  | x :: p', y :: s' => (x =? y)%N && prefixb p' s'
+  | _, [] => false
   end.
-Fixpoint rune_width_sum (fuel : nat) (tbl : list (N * Z)) (s : list N) : Z :=
-  match fuel with
-  | O => 0
-  | S f => match s with
-           | [] => 0
-           | _ => let '(r, sz) := decode_rune s in
-                  lookup_w tbl r + rune_width_sum f tbl (zdrop (Z.max sz 1) s)
-           end
-  end.
-Definition swidth_of (tbl : list (N * Z)) (s : list N) : Z := rune_width_sum (List.length s) tbl s.
+Definition swidth_of (tbl : list N * list Z) (s : list N) : Z :=
+  let '(x, ws) := tbl in
+  if prefixb s x then nth (List.length s) ws (-1000000) else -1000000.
 
-Fixpoint dec_wtab (l : list sexp) : list (N * Z) :=
+Fixpoint dec_Zs (l : list sexp) : option (list Z) :=
   match l with
-  | SList [Atom r; Atom w] :: t =>
-      match parse_N r, parse_Z w with
-      | Some r, Some w => (r, w) :: dec_wtab t
-      | _, _ => dec_wtab t
-      end
-  | _ :: t => dec_wtab t
-  | [] => []
+  | [] => Some []
+  | Atom a :: t => match parse_Z a, dec_Zs t with Some z, Some r => Some (z :: r) | _, _ => None end
+  | _ => None
   end.
-Definition wtab_of (e : sexp) : list (N * Z) :=
-  match e with SList (_ :: l) => dec_wtab l | _ => [] end.
+Definition wtab_of (x : list N) (e : sexp) : list N * list Z :=
+  match e with
+  | SList (_ :: l) => match dec_Zs l with Some ws => (x, ws) | None => (x, []) end
+  | _ => (x, [])
+  end.
 
 (* ---- input blocks --------------------------------------------------------------------------------- *)
 Fixpoint repeat_app (n : nat) (b : list N) (tail : list N) : list N :=
@@ -57,7 +53,7 @@ Fixpoint dec_input (l : list sexp) : option (list N) :=
   match l with
   | [] => Some []
   | SList [_; Atom n; Atom h] :: t =>
-      match parse_N n, parse_hexs h, dec_input t with
+      match parse_N n, parse_hexs_fast h, dec_input t with
       | Some n, Some b, Some rest => Some (repeat_app (N.to_nat n) b rest)
       | _, _, _ => None
       end
@@ -66,26 +62,12 @@ Fixpoint dec_input (l : list sexp) : option (list N) :=
 Definition input_of (e : sexp) : option (list N) :=
   match e with SList (_ :: l) => dec_input l | _ => None end.
 
-Fixpoint dec_Zs (l : list sexp) : option (list Z) :=
-  match l with
-  | [] => Some []
-  | Atom a :: t => match parse_Z a, dec_Zs t with Some z, Some r => Some (z :: r) | _, _ => None end
-  | _ => None
-  end.
-
-Fixpoint prefixb (p s : list N) : bool :=
-  match p, s with
-  | [], _ => true
-  | x :: p', y :: s' => (x =? y)%N && prefixb p' s'
-  | _, [] => false
-  end.
-
 Definition hexa (l : list N) : sexp := Atom (print_hexs l).
 Definition bad (l : list sexp) : sexp := SList (A "bad" :: l).
 Definition zat (z : Z) : sexp := Atom (print_Z z).
 
 (* ---- lbo ------------------------------------------------------------------------------------------ *)
-Definition run_lbo (spec : bool) (str : list N) (off : Z) (ls : list N) (line col : Z) (tbl : list (N * Z)) : sexp :=
+Definition run_lbo (spec : bool) (str : list N) (off : Z) (ls : list N) (line col : Z) (tbl : list N * list Z) : sexp :=
   let sw := swidth_of tbl in
   if spec then
     let okb :=
@@ -110,7 +92,7 @@ Definition gojq_prefix : list N := codes "gojq: ".
 Definition dec_rep (e : sexp) : option (option Z * list N * Z) :=
   match e with
   | SList [_; Atom l; Atom x; Atom c] =>
-      match parse_hexs x, parse_Z c with
+      match parse_hexs_fast x, parse_Z c with
       | Some x, Some c =>
           if list_N_eqb l (codes "-") then Some (None, x, c)
           else match parse_Z l with Some l => Some (Some l, x, c) | None => None end
@@ -128,9 +110,9 @@ Definition rep_faithful (kind fname shown : list N) (rep : option Z * list N * Z
   end.
 
 Definition run_json (spec : bool) (transport : sexp) (fname c : list N) (err : sexp) (chunks : list Z)
-                    (stderr : list N) (rep : option Z * list N * Z) (tbl : list (N * Z)) : sexp :=
+                    (stderr : list N) (rep : option Z * list N * Z) (tbl : list N * list Z) : sexp :=
   let sw := swidth_of tbl in
-  let pipe := atom_is "pipe" transport in
+  let pipe := match transport with SList (t :: _) => atom_is "pipe" t | _ => false end in
   let e := match err with
            | SList [_; Atom v] => match parse_Z v with Some z => Some (Some z) | None => None end
            | _ => if atom_is "eof" err then Some None else None
@@ -165,7 +147,7 @@ Definition run_json (spec : bool) (transport : sexp) (fname c : list N) (err : s
   end.
 
 Definition run_query (spec : bool) (fname contents : list N) (perr : sexp) (stderr : list N)
-                     (rep : option Z * list N * Z) (tbl : list (N * Z)) : sexp :=
+                     (rep : option Z * list N * Z) (tbl : list N * list Z) : sexp :=
   let sw := swidth_of tbl in
   let pe := match perr with
             | SList [_; Atom o; Atom t] =>
@@ -186,7 +168,7 @@ Definition run_query (spec : bool) (fname contents : list N) (perr : sexp) (stde
     if prefixb h stderr then A "ok" else bad [hexa h].
 
 Definition run_yaml (spec : bool) (fname contents : list N) (index : Z) (stderr : list N)
-                    (rep : option Z * list N * Z) (tbl : list (N * Z)) : sexp :=
+                    (rep : option Z * list N * Z) (tbl : list N * list Z) : sexp :=
   let sw := swidth_of tbl in
   if spec then
     let '(l, x, col) := rep in
@@ -203,8 +185,8 @@ Definition run_sexp (spec : bool) (e : sexp) : sexp :=
   match e with
   | SList [k; Atom s; Atom off; Atom ls; Atom line; Atom col; wt] =>
       if atom_is "lbo" k then
-        match parse_hexs s, parse_Z off, parse_hexs ls, parse_Z line, parse_Z col with
-        | Some s, Some off, Some ls, Some line, Some col => run_lbo spec s off ls line col (wtab_of wt)
+        match parse_hexs_fast s, parse_Z off, parse_hexs_fast ls, parse_Z line, parse_Z col with
+        | Some s, Some off, Some ls, Some line, Some col => run_lbo spec s off ls line col (wtab_of ls wt)
         | _, _, _, _, _ => A "undecodable"
         end
       else if atom_is "query" k then
@@ -213,25 +195,25 @@ Definition run_sexp (spec : bool) (e : sexp) : sexp :=
       else A "undecodable"
   | SList [k; transport; Atom fname; inp; err; SList (_ :: chunks); Atom stderr; rep; wt] =>
       if atom_is "json" k then
-        match parse_hexs fname, input_of inp, dec_Zs chunks, parse_hexs stderr, dec_rep rep with
+        match parse_hexs_fast fname, input_of inp, dec_Zs chunks, parse_hexs_fast stderr, dec_rep rep with
         | Some fname, Some c, Some chunks, Some stderr, Some rep =>
-            run_json spec transport fname c err chunks stderr rep (wtab_of wt)
+            run_json spec transport fname c err chunks stderr rep (wtab_of (snd (fst rep)) wt)
         | _, _, _, _, _ => A "undecodable"
         end
       else A "undecodable"
   | SList [k; Atom fname; Atom contents; perr; Atom stderr; rep; wt] =>
       if atom_is "query" k then
-        match parse_hexs fname, parse_hexs contents, parse_hexs stderr, dec_rep rep with
+        match parse_hexs_fast fname, parse_hexs_fast contents, parse_hexs_fast stderr, dec_rep rep with
         | Some fname, Some contents, Some stderr, Some rep =>
-            run_query spec fname contents perr stderr rep (wtab_of wt)
+            run_query spec fname contents perr stderr rep (wtab_of (snd (fst rep)) wt)
         | _, _, _, _ => A "undecodable"
         end
       else A "undecodable"
   | SList [k; transport; Atom fname; Atom contents; Atom index; Atom stderr; rep; wt] =>
       if atom_is "yaml" k then
-        match parse_hexs fname, parse_hexs contents, parse_Z index, parse_hexs stderr, dec_rep rep with
+        match parse_hexs_fast fname, parse_hexs_fast contents, parse_Z index, parse_hexs_fast stderr, dec_rep rep with
         | Some fname, Some contents, Some index, Some stderr, Some rep =>
-            run_yaml spec fname contents index stderr rep (wtab_of wt)
+            run_yaml spec fname contents index stderr rep (wtab_of (snd (fst rep)) wt)
         | _, _, _, _, _ => A "undecodable"
         end
       else A "undecodable"
@@ -239,7 +221,7 @@ Definition run_sexp (spec : bool) (e : sexp) : sexp :=
   end.
 
 Definition run_line (l : list N) : list N :=
-  match parse l with
+  match parse_fast l with
   | Some (SList [Atom k; e]) =>
       if list_N_eqb k (codes "spec") then print (run_sexp true e) else print (run_sexp false (SList [Atom k; e]))
   | Some e => print (run_sexp false e)
